@@ -19,6 +19,7 @@ and are covered by definitional unfolding in the `cog10_*` conjunctions.
 import EPV.Gen.Cog10D
 import EPV.Spec.Euler1D
 import EPV.Lemmas.Euler1D
+import EPV.Lemmas.HydroRobust
 import EPV.Tactics
 
 set_option linter.all false
@@ -40,8 +41,8 @@ theorem cog10_c1_iff (p : Cog10.P) (r t : ℝ) : Cog10.c1 p r t ↔ -1 < cog10_a
 theorem cog10_mass_L0 (p : Cog10.P) (r t : ℝ) (hr : 0 < r) :
     massRes (Cog10.L0.density p) (Cog10.L0.velocity p) (p.geometry - 1) r t = 0 := by
   unfold massRes dr dt
-  rw [(Cog10.L0.density_hasDerivAt_t p r t).deriv, (Cog10.L0.density_hasDerivAt_r p r t hr).deriv,
-    (Cog10.L0.velocity_hasDerivAt_r p r t).deriv]
+  epv_hydro_rw_derivs [Cog10.L0.density_hasDerivAt_t p r t, Cog10.L0.density_hasDerivAt_r p r t,
+    Cog10.L0.velocity_hasDerivAt_r p r t]
   simp only [epv_deriv, epv_leaf]
   field_simp
   ring
@@ -49,8 +50,8 @@ theorem cog10_mass_L0 (p : Cog10.P) (r t : ℝ) (hr : 0 < r) :
 theorem cog10_momentum_L0 (p : Cog10.P) (r t : ℝ) (hr : 0 < r) (hρ : p.rho0 ≠ 0) :
     momResT (Cog10.L0.density p) (Cog10.L0.velocity p) (Cog10.L0.temperature p) p.Gamma r t = 0 := by
   unfold momResT dr dt
-  rw [(Cog10.L0.velocity_hasDerivAt_t p r t).deriv, (Cog10.L0.velocity_hasDerivAt_r p r t).deriv,
-    (Cog10.L0.density_hasDerivAt_r p r t hr).deriv, (Cog10.L0.temperature_hasDerivAt_r p r t hr).deriv]
+  epv_hydro_rw_derivs [Cog10.L0.velocity_hasDerivAt_t p r t, Cog10.L0.velocity_hasDerivAt_r p r t,
+    Cog10.L0.density_hasDerivAt_r p r t, Cog10.L0.temperature_hasDerivAt_r p r t]
   simp only [epv_deriv, epv_leaf]
   have h1 := Real.rpow_pos_of_pos hr (-(p.geometry - (1 : ℝ)))
   field_simp
@@ -99,8 +100,8 @@ theorem cog10_energy_L0 (p : Cog10.P) (r t : ℝ) (hr : 0 < r) (hk : p.geometry 
   rw [energyResT_eq_of_flux (cog10_flux_near_L0 p r t hr)
     (Cog10.L0.heat_flux_hasDerivAt_r p r t hr hρ' hT' hr.ne')]
   unfold energyHydroT dr dt
-  rw [(Cog10.L0.temperature_hasDerivAt_t p r t).deriv, (Cog10.L0.velocity_hasDerivAt_r p r t).deriv,
-    (Cog10.L0.temperature_hasDerivAt_r p r t hr).deriv]
+  epv_hydro_rw_derivs [Cog10.L0.temperature_hasDerivAt_t p r t, Cog10.L0.velocity_hasDerivAt_r p r t,
+    Cog10.L0.temperature_hasDerivAt_r p r t]
   have key := cog10_key p.rho0 p.temp0 r (p.geometry - 1) (cog10_alpha p) p.beta hr hρ hT hk rfl
   simp only [epv_deriv, epv_leaf]
   rw [hc, ha, hl, hα, hβ]
